@@ -26,6 +26,12 @@ for f in facts:
         out.append(f'def expected_{n} : List String := {f["lean"]}')
         out.append(f'def Shape_{n} : Prop := skel_{n} = expected_{n}')
         out.append('')
+for f in facts:
+    if f['name'].startswith('text_'):
+        n = f['name'][5:]
+        out.append(f'def expectedText_{n} : List String := {f["lean"]}')
+        out.append(f'def Text_{n} : Prop := text_{n} = expectedText_{n}')
+        out.append('')
 out.append('end Oidc.Shapes')
 open(os.path.join(ROOT, 'lean/Oidc/Shapes.lean'), 'w').write('\n'.join(out) + '\n')
 print('pinned', sum(1 for f in facts if f['name'].startswith('skel_')), 'shapes')
